@@ -13,7 +13,14 @@
 //	        through Set (for the model this is a plain Append)
 //	        n:<x>,.. (first op only) = construct with NewLinkedListOf / NewCopyOnWriteArrayListOf
 //	        (ArrayList: plain Append, NewArrayListOf is documented to share its argument)
-//	output: <res>|<len>|<nil>:<contents>|<cap>|<fresh>|<argok>;...   one line per history, stops after a panic
+//	        N:<x>,.. (first op only, ArrayList) = NewArrayListOf(ts) with ts = make([]int, n, max(n,cap0));
+//	        ts is kept and NOT overwritten: the constructor is documented to share it
+//	output: <res>|<len>|<nil>:<contents>|<cap>|<fresh>|<argok>|<cow>|<sh>;...   one line per history, stops after a panic
+//	        cow  CopyOnWriteArrayList only (else -): 1 = every slice published before this call still holds
+//	             what it held, and a successful mutator published a different backing array;
+//	             0 = an old snapshot changed; P = a mutator re-published the same array
+//	        sh   N-histories only (else -): S = the list still uses ts's array, U = it does not,
+//	             ? = pointer identity and the write-through probes disagree (ts[0] <-> Get(0)/Set(0))
 //
 // Argument slices: every slice passed to Append / New...Of is owned by the harness, often has
 // spare capacity, and is overwritten (elements and spare capacity) right after the call, before
@@ -33,6 +40,7 @@ import (
 	"os"
 	"strconv"
 	"strings"
+	"unsafe"
 
 	"github.com/ecodeclub/ekit/list"
 	"verifharness/reg"
@@ -283,6 +291,106 @@ func mkOf(impl string, cap0 int, xs []int) list.List[int] {
 	return l
 }
 
+func dataPtr(s []int) unsafe.Pointer { return unsafe.Pointer(unsafe.SliceData(s)) }
+
+// the ArrayList / CopyOnWriteArrayList behind the interface (through ConcurrentList wrappers)
+func unwrap(l list.List[int]) list.List[int] {
+	for {
+		c, ok := l.(*list.ConcurrentList[int])
+		if !ok {
+			return l
+		}
+		l = c.List
+	}
+}
+
+func internalVals(l list.List[int]) ([]int, bool) {
+	switch x := unwrap(l).(type) {
+	case *list.ArrayList[int]:
+		return x.VerifVals(), true
+	case *list.CopyOnWriteArrayList[int]:
+		return x.VerifVals(), true
+	}
+	return nil, false
+}
+
+type snapRec struct{ full, want []int }
+
+// cowTracker: the slices a CopyOnWriteArrayList has published so far must never change
+type cowTracker struct{ recs []snapRec }
+
+func (t *cowTracker) before(l list.List[int]) []int {
+	c, ok := unwrap(l).(*list.CopyOnWriteArrayList[int])
+	if !ok {
+		return nil
+	}
+	v := c.VerifVals()
+	full := v[:cap(v)]
+	t.recs = append(t.recs, snapRec{full, append([]int(nil), full...)})
+	if len(t.recs) > 4 {
+		t.recs = t.recs[1:]
+	}
+	return v
+}
+
+func (t *cowTracker) after(l list.List[int], before []int, op, res string) string {
+	c, ok := unwrap(l).(*list.CopyOnWriteArrayList[int])
+	if !ok {
+		return "-"
+	}
+	for _, r := range t.recs {
+		for i := range r.full {
+			if r.full[i] != r.want[i] {
+				return "0"
+			}
+		}
+	}
+	mut := strings.IndexByte("abnis d", op[0]) >= 0 && op[0] != ' '
+	if mut && (res == "ok" || strings.HasPrefix(res, "v:")) {
+		now := c.VerifVals()
+		if cap(now) > 0 && cap(before) > 0 && dataPtr(now) == dataPtr(before) {
+			return "P"
+		}
+	}
+	return "1"
+}
+
+// shareProbe: does the list made by NewArrayListOf(ts) still live in ts's array?
+func shareProbe(l list.List[int], ts []int) string {
+	if ts == nil {
+		return "-"
+	}
+	vals, ok := internalVals(l)
+	if !ok || cap(ts) == 0 || cap(vals) == 0 {
+		return "-"
+	}
+	ptr := dataPtr(vals) == dataPtr(ts)
+	if len(ts) == 0 || l.Len() == 0 {
+		if ptr {
+			return "S"
+		}
+		return "U"
+	}
+	// mutate ts, read the list
+	v0 := ts[0]
+	ts[0] = v0 ^ 0x5555
+	got, _ := l.Get(0)
+	through1 := got == ts[0]
+	ts[0] = v0
+	// mutate the list, read ts
+	w0, _ := l.Get(0)
+	_ = l.Set(0, w0^0x3333)
+	through2 := ts[0] == w0^0x3333
+	_ = l.Set(0, w0)
+	if ptr && through1 && through2 {
+		return "S"
+	}
+	if !ptr && !through1 && !through2 {
+		return "U"
+	}
+	return "?"
+}
+
 // overwrite every element, then write into the spare capacity (if any)
 func scribble(s []int) {
 	for i := range s {
@@ -304,7 +412,11 @@ func observe(l list.List[int]) (obs string, held []int, ok bool) {
 	}()
 	n := l.Len()
 	s := l.AsSlice()
-	return strconv.Itoa(n) + "|" + b01(s == nil) + ":" + showInts(s), s, true
+	nilness := b01(s == nil)
+	if vals, okv := internalVals(l); okv && cap(s) > 0 && cap(vals) > 0 && dataPtr(s) == dataPtr(vals) {
+		nilness = "A" // AsSlice handed out the list's own backing array
+	}
+	return strconv.Itoa(n) + "|" + nilness + ":" + showInts(s), s, true
 }
 
 func capOf(l list.List[int]) (c string) {
@@ -321,6 +433,8 @@ func runHistory(impl string, cap0 int, ops []string) string {
 	var held, heldCopy []int
 	var sb strings.Builder
 	tr := &argTracker{}
+	ct := &cowTracker{}
+	var sharedTs []int
 	for k, op := range ops {
 		if at := strings.IndexByte(op, '@'); at >= 0 {
 			op = op[:at]
@@ -333,7 +447,22 @@ func runHistory(impl string, cap0 int, ops []string) string {
 			observed, op = false, op[1:]
 		}
 		var res string
-		if k == 0 && strings.HasPrefix(op, "n:") {
+		cowBefore := ct.before(l)
+		if k == 0 && strings.HasPrefix(op, "N:") {
+			vals := mkArg(strings.Split(op, ":"), 0)
+			c := len(vals)
+			if cap0 > c {
+				c = cap0
+			}
+			sharedTs = make([]int, len(vals), c)
+			copy(sharedTs, vals)
+			var inner list.List[int] = list.NewArrayListOf[int](sharedTs)
+			for w := impl; strings.HasPrefix(w, "conc-"); w = w[5:] {
+				inner = &list.ConcurrentList[int]{List: inner}
+			}
+			l = inner
+			res = "ok"
+		} else if k == 0 && strings.HasPrefix(op, "n:") {
 			res = func() (r string) {
 				defer func() {
 					if e := recover(); e != nil {
@@ -352,7 +481,7 @@ func runHistory(impl string, cap0 int, ops []string) string {
 			sb.WriteString("panic")
 			break
 		}
-		argok := b01(tr.ok())
+		argok := b01(tr.ok()) + "|" + ct.after(l, cowBefore, op, res) + "|" + shareProbe(l, sharedTs)
 		if !observed {
 			c := "-"
 			if strings.HasSuffix(impl, "array") {
